@@ -116,7 +116,8 @@ struct Script {
 struct Ctx {
     std::string out;                 // trace of the current case
     unsigned long long val = 0;      // guard valuation of the current top-level operation
-    unsigned long long frozen = 0;   // frozen values of completion guards
+    unsigned long long frozen_[8] = {0, 0, 0, 0, 0, 0, 0, 0};   // frozen values of completion guards, per machine object
+    unsigned long long& frozen_ref() { return frozen_[cur_obj & 7]; }
     int ordinal = 0;                 // callback ordinal within the current top-level operation
     std::vector<Script> scripts;     // scripts of the current top-level operation
     bool in_op = false;
@@ -199,7 +200,7 @@ template <class Ev, class Fsm>
 bool guard(int n, const Ev& e, Fsm& fsm) {
     Ctx& c = C();
     bool v;
-    if ((frozen_atoms() >> n) & 1ULL) v = (c.frozen >> n) & 1ULL; else v = (c.val >> n) & 1ULL;
+    if ((frozen_atoms() >> n) & 1ULL) v = (c.frozen_ref() >> n) & 1ULL; else v = (c.val >> n) & 1ULL;
     tok("g" + std::to_string(n) + "=" + (v ? "1" : "0") + "/" + rt_describe(e) + owner_tag(&fsm));
     // guards of completion rows are no script positions: how often they are consulted differs by documented design
     // between back (after every handled event) and backmp11 (once per entry), and ordinals must mean the same everywhere
@@ -217,7 +218,7 @@ void entry(int sidx, const char* name, const void* self, const Ev& e, Fsm& fsm) 
     // freeze completion guards whose source is this state
     auto& ft = freeze().mask_by_state;
     if (sidx >= 0 && sidx < (int)ft.size() && ft[sidx]) {
-        c.frozen = (c.frozen & ~ft[sidx]) | (c.val & ft[sidx]);
+        c.frozen_ref() = (c.frozen_ref() & ~ft[sidx]) | (c.val & ft[sidx]);
     }
     tok(std::string("en:") + name + "/" + rt_describe(e) + owner_tag(self));
     after_callback(fsm);
